@@ -20,7 +20,7 @@ from onnx import helper as h
 
 KINDS = {"F2": (TP.FLOAT, [2]), "F22": (TP.FLOAT, [2, 2]), "B": (TP.BOOL, []), "I": (TP.INT64, []), "I2": (TP.INT64, [2]),
          "S2": (TP.STRING, [2]), "S": (TP.STRING, []), "F20": (TP.FLOAT, [20]), "F1": (TP.FLOAT, [1]), "I1": (TP.INT64, [1]),
-         "J2": (TP.INT32, [2]), "F21": (TP.FLOAT, [2, 1])}
+         "J2": (TP.INT32, [2]), "F21": (TP.FLOAT, [2, 1]), "F222": (TP.FLOAT, [2, 2, 2])}
 
 
 def _tensor(name, kind, data):
@@ -279,6 +279,13 @@ class Gen:
                 nodes.extend(pre)
                 nodes.append({"op": "Clip", "ins": ins, "outs": [o], "attrs": {}})
                 pool.append((o, "F2")); local.append((o, "F2"))
+                bound = [i for i in ins[1:] if i]
+                if len(bound) == 1 and r.random() < 0.6:
+                    # sibling sharing the same values with the bound in the OTHER optional slot: Clip(x, b) vs Clip(x, "", b)
+                    o2 = self.fresh()
+                    sib = [x, "", bound[0]] if (len(ins) > 1 and ins[1] == bound[0]) else [x, bound[0]]
+                    nodes.append({"op": "Clip", "ins": sib, "outs": [o2], "attrs": {}})
+                    pool.append((o2, "F2")); local.append((o2, "F2"))
             elif c < 0.80:
                 # multi-output / optional outputs
                 op = r.choice(["Split", "Dropout", "TopK", "Unique", "BatchNormalization", "MaxPool"])
